@@ -202,16 +202,22 @@ def check_case(case) -> Outcome:
                     Pmax = max(proj) if proj else 0
                     should_refuse = Pmax > allowed
                 elif case["entry"] == "store":
-                    lz = cubed.store([arrs2[out_id]], [tstore], compute=False)
-                    fpS = cubed.plan(*lz, **kw2)
+                    # plan on a second build of the same program (a store call changes the array it is given, so the
+                    # planning call and the judged call must not share arrays)
+                    arrs_p = P.build_cubed(prog, spec2)
+                    kwp = _plan_kw(o, cubed.plan(*[arrs_p[i] for i in prog["outputs"]], optimize_graph=False).dag)
+                    lz = cubed.store([arrs_p[out_id]], [H.TraceStore(MemoryStore())], compute=False)
+                    fpS = cubed.plan(*lz, **kwp)
                     proj = _projected(fpS.dag)
                     Pmax = max(proj) if proj else 0
                     should_refuse = Pmax > allowed
                     cubed.store([arrs2[out_id]], [tstore], executor=ex, callbacks=[cb], **kw2)
                     got = None
                 else:
-                    lz = cubed.to_zarr(arrs2[out_id], tstore, path="t", compute=False)
-                    fpS = lz.plan(**kw2)
+                    arrs_p = P.build_cubed(prog, spec2)
+                    kwp = _plan_kw(o, cubed.plan(*[arrs_p[i] for i in prog["outputs"]], optimize_graph=False).dag)
+                    lz = cubed.to_zarr(arrs_p[out_id], H.TraceStore(MemoryStore()), path="t", compute=False)
+                    fpS = lz.plan(**kwp)
                     proj = _projected(fpS.dag)
                     Pmax = max(proj) if proj else 0
                     should_refuse = Pmax > allowed
